@@ -257,6 +257,9 @@ def _walk_members(node, types, vmaps, fmaps):
             node["v"] = vmaps[q][node["v"]]
     elif k == "agg" and node.get("ak") == "adt":
         q = node.get("adt")
+        if q in fmaps and isinstance(node.get("fn"), list):
+            fm = fmaps[q]
+            node["fn"] = [next((rf for (vn, cf), rf in fm.items() if cf == n and (vn == node.get("v") or True)), n) for n in node["fn"]]
         if q in vmaps and node.get("v") in vmaps[q]:
             node["v"] = vmaps[q][node["v"]]
     for v in node.values():
@@ -356,7 +359,7 @@ def normalise(texts):
                             v["n"] = vmaps[q][v["n"]]
             for f in j["fns"]:
                 for body in [f["body"]] + list(f.get("promoted") or []):
-                    if vmaps:
+                    if vmaps or fmaps:
                         _walk_members(body["blocks"], types, vmaps, fmaps)
                     if fmaps:
                         _walk_fields(body["blocks"], types, vmaps, fmaps)
